@@ -3,7 +3,7 @@
    `served` is the broker abstracted to the views it serves over time; the only facts assumed about it are C04's:
    served_mono_prop (per address the served epoch never decreases) and served_same_prop (equal epochs imply equal content). *)
 From UM Require Import Base.BytesDef Model.Ctrl Proofs.CtrlProofsInv Proofs.CtrlProofsMain Proofs.CtrlProofsRound
-  Proofs.CtrlProofsMig Proofs.CtrlProofsTwo Proofs.CtrlProofsOrder.
+  Proofs.CtrlProofsMig Proofs.CtrlProofsTwo Proofs.CtrlProofsOrder Proofs.CtrlProofsBroker.
 
 (* For every event sequence whatsoever (drops, duplicates, delays = late Deliver, reordering, coordinator crashes, restarts of
    other proxies, broker changes, any number of coordinators): as long as proxy a is not restarted its installed epoch (of either
@@ -175,6 +175,145 @@ Check C13_reconverge : forall served reports k addrs n s,
     installed s' a kd = {| k_epoch := E; k_content := C |}.
 Print Assumptions C13_reconverge.
 
+(* ====================================================================================================================
+   The same theorems about BROKER HISTORIES: `served` instantiated with the views of the Broker model (Model/Broker.v),
+     served_of s0 ops lim t a = (vp_epoch v, content_id v)  where  view_proxy lim (Broker.run s0 (firstn t ops)) a = Some (Some v)
+   for any initial store s0 with epoch_inv (true of every reachable store: C04_epoch_inv_reachable), any operation list without
+   an accepted Restore (ok_ops) and any migration limit.  The two hypotheses are discharged by C04 (served_of_mono,
+   served_of_same).  content_id : vproxy -> N is injective on everything but the epoch (content_id_inj), so
+   "k_content = content_id v" pins the whole content of the view.
+   ==================================================================================================================== *)
+
+Theorem C07_served_of_broker_facts : forall s0 ops lim,
+  BrokerEpochInv.epoch_inv s0 -> BrokerEpochMain.ok_ops s0 ops ->
+  served_mono_prop (served_of s0 ops lim) /\ served_same_prop (served_of s0 ops lim).
+Proof. intros s0 ops lim H1 H2. split; [exact (served_of_mono s0 ops lim H1 H2) | exact (served_of_same s0 ops lim H1 H2)]. Qed.
+Check C07_served_of_broker_facts : forall s0 ops lim,
+  BrokerEpochInv.epoch_inv s0 -> BrokerEpochMain.ok_ops s0 ops ->
+  served_mono_prop (served_of s0 ops lim) /\ served_same_prop (served_of s0 ops lim).
+Print Assumptions C07_served_of_broker_facts.
+
+Theorem C07_content_id_injective : forall v v',
+  CtrlProofsBrokerEnc.content_id v = CtrlProofsBrokerEnc.content_id v' -> BrokerEpochInv.vp_content v = BrokerEpochInv.vp_content v'.
+Proof. exact CtrlProofsBrokerEnc.content_id_inj. Qed.
+Check C07_content_id_injective : forall v v',
+  CtrlProofsBrokerEnc.content_id v = CtrlProofsBrokerEnc.content_id v' -> BrokerEpochInv.vp_content v = BrokerEpochInv.vp_content v'.
+Print Assumptions C07_content_id_injective.
+
+(* never older: whatever a proxy holds (of either kind) is a view the broker model served to it at some earlier time of the
+   history, and every view of that epoch served to it at any time is that same view *)
+Theorem C07_never_older_broker : forall s0 ops lim,
+  BrokerEpochInv.epoch_inv s0 -> BrokerEpochMain.ok_ops s0 ops ->
+  forall pre evs a k, no_restart a evs = true ->
+  let st := run (served_of s0 ops lim) pre init in
+  let st' := run (served_of s0 ops lim) evs st in
+  k_epoch (installed st a k) <= k_epoch (installed st' a k)
+  /\ (k_epoch (installed st' a k) <> 0 ->
+      exists t v, (t <= now st')%nat
+        /\ Broker.view_proxy lim (Broker.run s0 (firstn t ops)) a = Some (Some v)
+        /\ Broker.vp_epoch v = k_epoch (installed st' a k)
+        /\ CtrlProofsBrokerEnc.content_id v = k_content (installed st' a k)
+        /\ (forall t' v', Broker.view_proxy lim (Broker.run s0 (firstn t' ops)) a = Some (Some v') ->
+              Broker.vp_epoch v' = Broker.vp_epoch v -> v' = v)).
+Proof. exact never_older_broker. Qed.
+Check C07_never_older_broker : forall s0 ops lim,
+  BrokerEpochInv.epoch_inv s0 -> BrokerEpochMain.ok_ops s0 ops ->
+  forall pre evs a k, no_restart a evs = true ->
+  let st := run (served_of s0 ops lim) pre init in
+  let st' := run (served_of s0 ops lim) evs st in
+  k_epoch (installed st a k) <= k_epoch (installed st' a k)
+  /\ (k_epoch (installed st' a k) <> 0 ->
+      exists t v, (t <= now st')%nat
+        /\ Broker.view_proxy lim (Broker.run s0 (firstn t ops)) a = Some (Some v)
+        /\ Broker.vp_epoch v = k_epoch (installed st' a k)
+        /\ CtrlProofsBrokerEnc.content_id v = k_content (installed st' a k)
+        /\ (forall t' v', Broker.view_proxy lim (Broker.run s0 (firstn t' ops)) a = Some (Some v') ->
+              Broker.vp_epoch v' = Broker.vp_epoch v -> v' = v)).
+Print Assumptions C07_never_older_broker.
+
+(* one complete fault-free meta-sync round: every listed proxy holds the view the broker model serves at the current time *)
+Theorem C07_converge_one_round_broker : forall s0 ops lim,
+  BrokerEpochInv.epoch_inv s0 -> BrokerEpochMain.ok_ops s0 ops ->
+  forall reports pre k addrs n,
+  let st := run (served_of s0 ops lim) pre init in
+  queue_free k st ->
+  let st' := run (served_of s0 ops lim) (fst (fst (meta_round (served_of s0 ops lim) (no_faults reports) k addrs n st))) st in
+  now st' = now st /\
+  forall a v kd, In a addrs ->
+    Broker.view_proxy lim (Broker.run s0 (firstn (now st) ops)) a = Some (Some v) -> 0 < Broker.vp_epoch v ->
+    installed st' a kd = {| k_epoch := Broker.vp_epoch v; k_content := CtrlProofsBrokerEnc.content_id v |}.
+Proof. exact converge_one_round_broker. Qed.
+Check C07_converge_one_round_broker : forall s0 ops lim,
+  BrokerEpochInv.epoch_inv s0 -> BrokerEpochMain.ok_ops s0 ops ->
+  forall reports pre k addrs n,
+  let st := run (served_of s0 ops lim) pre init in
+  queue_free k st ->
+  let st' := run (served_of s0 ops lim) (fst (fst (meta_round (served_of s0 ops lim) (no_faults reports) k addrs n st))) st in
+  now st' = now st /\
+  forall a v kd, In a addrs ->
+    Broker.view_proxy lim (Broker.run s0 (firstn (now st) ops)) a = Some (Some v) -> 0 < Broker.vp_epoch v ->
+    installed st' a kd = {| k_epoch := Broker.vp_epoch v; k_content := CtrlProofsBrokerEnc.content_id v |}.
+Print Assumptions C07_converge_one_round_broker.
+
+Theorem C07_two_rounds_broker : forall s0 ops lim,
+  BrokerEpochInv.epoch_inv s0 -> BrokerEpochMain.ok_ops s0 ops ->
+  forall reports pre k1 k2 addrs1 addrs2 n1 n2,
+  let served := served_of s0 ops lim in
+  let st := run served pre init in
+  queue_free k1 st -> queue_free k2 st ->
+  let ev1 := fst (fst (mig_round served (no_faults reports) k1 addrs1 n1 st)) in
+  let s1 := run served ev1 st in
+  let ev2 := fst (fst (meta_round served (no_faults reports) k2 addrs2 n2 s1)) in
+  let s2 := run served ev2 s1 in
+  (forall a m, In (Report a m) ev1 -> In (m_id m) (pending st) ->
+     count_occ N.eq_dec (commits s2) (m_id m) = 1%nat /\ ~ In (m_id m) (pending s2))
+  /\ now s2 = now s1
+  /\ (forall a v kd, In a addrs2 ->
+        Broker.view_proxy lim (Broker.run s0 (firstn (now s2) ops)) a = Some (Some v) -> 0 < Broker.vp_epoch v ->
+        installed s2 a kd = {| k_epoch := Broker.vp_epoch v; k_content := CtrlProofsBrokerEnc.content_id v |}).
+Proof. exact two_rounds_broker. Qed.
+Check C07_two_rounds_broker : forall s0 ops lim,
+  BrokerEpochInv.epoch_inv s0 -> BrokerEpochMain.ok_ops s0 ops ->
+  forall reports pre k1 k2 addrs1 addrs2 n1 n2,
+  let served := served_of s0 ops lim in
+  let st := run served pre init in
+  queue_free k1 st -> queue_free k2 st ->
+  let ev1 := fst (fst (mig_round served (no_faults reports) k1 addrs1 n1 st)) in
+  let s1 := run served ev1 st in
+  let ev2 := fst (fst (meta_round served (no_faults reports) k2 addrs2 n2 s1)) in
+  let s2 := run served ev2 s1 in
+  (forall a m, In (Report a m) ev1 -> In (m_id m) (pending st) ->
+     count_occ N.eq_dec (commits s2) (m_id m) = 1%nat /\ ~ In (m_id m) (pending s2))
+  /\ now s2 = now s1
+  /\ (forall a v kd, In a addrs2 ->
+        Broker.view_proxy lim (Broker.run s0 (firstn (now s2) ops)) a = Some (Some v) -> 0 < Broker.vp_epoch v ->
+        installed s2 a kd = {| k_epoch := Broker.vp_epoch v; k_content := CtrlProofsBrokerEnc.content_id v |}).
+Print Assumptions C07_two_rounds_broker.
+
+(* C13 on the broker model: the store restored from any snapshot satisfying epoch_inv, recover_service run with m at least every
+   epoch installed on the listed proxies (either kind), then any operations without accepted Restore: one complete fault-free
+   meta-sync round, from ANY control-plane state s, makes every listed proxy hold the view the recovered broker serves *)
+Theorem C13_reconverge_broker : forall snap m ops lim reports k addrs n (s : state),
+  BrokerEpochInv.epoch_inv snap -> BrokerEpochMain.ok_ops (BrokerEpochMain.recover_service snap m) ops ->
+  queue_free k s ->
+  (forall a kd, In a addrs -> k_epoch (installed s a kd) <= m) ->
+  let served := served_of (BrokerEpochMain.recover_service snap m) ops lim in
+  let s' := run served (fst (fst (meta_round served (no_faults reports) k addrs n s))) s in
+  forall a v kd, In a addrs ->
+    Broker.view_proxy lim (Broker.run (BrokerEpochMain.recover_service snap m) (firstn (now s) ops)) a = Some (Some v) ->
+    installed s' a kd = {| k_epoch := Broker.vp_epoch v; k_content := CtrlProofsBrokerEnc.content_id v |}.
+Proof. exact reconverge_broker. Qed.
+Check C13_reconverge_broker : forall snap m ops lim reports k addrs n (s : state),
+  BrokerEpochInv.epoch_inv snap -> BrokerEpochMain.ok_ops (BrokerEpochMain.recover_service snap m) ops ->
+  queue_free k s ->
+  (forall a kd, In a addrs -> k_epoch (installed s a kd) <= m) ->
+  let served := served_of (BrokerEpochMain.recover_service snap m) ops lim in
+  let s' := run served (fst (fst (meta_round served (no_faults reports) k addrs n s))) s in
+  forall a v kd, In a addrs ->
+    Broker.view_proxy lim (Broker.run (BrokerEpochMain.recover_service snap m) (firstn (now s) ops)) a = Some (Some v) ->
+    installed s' a kd = {| k_epoch := Broker.vp_epoch v; k_content := CtrlProofsBrokerEnc.content_id v |}.
+Print Assumptions C13_reconverge_broker.
+
 (* ---------- non-vacuity: a concrete broker history and a concrete faulty run ---------- *)
 
 (* the broker serves proxies 1 and 2; the epoch is the time + 1 (every step changes something) *)
@@ -261,4 +400,23 @@ Proof.
   split; [intros n st; reflexivity|]. vm_compute. repeat split; try reflexivity.
   - intros kc [].
   - do 10 right. left. reflexivity.
+Qed.
+
+(* broker instance: four proxies on two hosts and a cluster on proxies 1 and 2; the hypotheses of the *_broker theorems hold and
+   the broker model serves proxy 1 a view of epoch 5 > 0 at time 5 (content identifiers are never computed: they are huge) *)
+Definition exb_ops : list Broker.op :=
+  [Broker.OAddProxy 1 (Some 10) None; Broker.OAddProxy 2 (Some 11) None; Broker.OAddProxy 3 (Some 10) None;
+   Broker.OAddProxy 4 (Some 11) None; Broker.OAddCluster 1 4 1 [(1, 2)]].
+
+Example C07_example_broker_instance :
+  BrokerEpochInv.epoch_inv (Broker.init_store false)
+  /\ BrokerEpochMain.ok_ops (Broker.init_store false) exb_ops
+  /\ option_map (option_map Broker.vp_epoch) (Broker.view_proxy 1 (Broker.run (Broker.init_store false) (firstn 5 exb_ops)) 1)
+     = Some (Some 5)
+  /\ option_map (option_map Broker.vp_epoch) (Broker.view_proxy 1 (Broker.run (Broker.init_store false) (firstn 3 exb_ops)) 1)
+     = Some (Some 3).
+Proof.
+  split; [apply BrokerEpochInv.epoch_inv_init|]. split.
+  - apply BrokerEpochMain.restore_free_ok. repeat constructor.
+  - split; vm_compute; reflexivity.
 Qed.
